@@ -411,12 +411,21 @@ type c17Dial struct {
 	Parsed bool   `json:"parsed"` // produced by ParseURI (expected pair is asserted) vs hand-made
 }
 
+// sharedDialConfig is reused by every dial of the process, as an application would reuse its
+// DialConfig for several servers: the server name of one dial must not leak into the next.
+var sharedDialConfig = func() *stun.DialConfig {
+	cfg := &stun.DialConfig{}
+	cfg.DTLSConfig.InsecureSkipVerify = true
+	cfg.TLSConfig.InsecureSkipVerify = true //nolint:gosec
+
+	return cfg
+}()
+
 func runC17Dial(c c17Dial) error {
 	u := &stun.URI{Scheme: stun.SchemeType(c.Scheme), Proto: stun.ProtoType(c.Proto), Host: c.Host, Port: c.Port}
 	fn := &fakeNet{}
-	cfg := &stun.DialConfig{Net: fn}
-	cfg.DTLSConfig.InsecureSkipVerify = true
-	cfg.TLSConfig.InsecureSkipVerify = true //nolint:gosec
+	cfg := sharedDialConfig
+	cfg.Net = fn
 	var cl *stun.Client
 	var err error
 	if perr := pbt.Safely(func() { cl, err = stun.DialURI(u, cfg) }); perr != nil {
